@@ -20,6 +20,7 @@ def c02(tier, seed):
         {"type": "s2i", "kind": "select", "mc": {"module": "MC_Piecewise", "constants": {"N": n, "M": m}}},
         {"type": "i2s", "name": "drive select", "spec": "Trace_Select",
          "cmd": ["drive", "select", "{seed}", q(tier, 150, 1500), "{trace}"]},
+        session_step(tier, "eval"),
         # direct evaluation is also logged next to every evaluator query
         {"type": "i2s", "name": "drive evaluator (direct leg)", "spec": "Trace_Evaluator", "cfg": "Trace_Evaluator_direct",
          "cmd": ["drive", "evaluator", "{seed}", q(tier, 100, 800), "{trace}"]},
@@ -39,6 +40,7 @@ def c03(tier, seed):
          "cmd": ["histories", q(tier, 3, 4), q(tier, 3, 3), "{trace}"], "heap": "6g"},
         {"type": "i2s", "name": "random sessions", "spec": "Trace_Evaluator",
          "cmd": ["drive", "evaluator", "{seed}", q(tier, 300, 3000), "{trace}", "nonan"]},
+        session_step(tier, "query"),
     ]
 
 
@@ -49,6 +51,7 @@ def c12(tier, seed):
         {"type": "s2i", "kind": "evalv", "mc": {"module": "MC_EvalV", "constants": {"N": n, "M": m}}},
         {"type": "i2s", "name": "drive evalv", "spec": "Trace_EvalV",
          "cmd": ["drive", "evalv", "{seed}", q(tier, 400, 4000), "{trace}", "nonan"]},
+        session_step(tier, "vnext"),
     ]
 
 
@@ -61,6 +64,7 @@ def c13(tier, seed):
         {"type": "mc", "module": "MC_Merge", "constants": {"N": 2, "M": 3, "WithNaN": True}, "tag": "nan"},
         {"type": "i2s", "name": "drive merge", "spec": "Trace_Merge",
          "cmd": ["drive", "merge", "{seed}", q(tier, 300, 3000), "{trace}"]},
+        session_step(tier, "combine"),
     ]
 
 
@@ -80,13 +84,11 @@ def c16(tier, seed):
          "cmd": ["histories", q(tier, 3, 4), q(tier, 3, 3), "{trace}", "nan"], "heap": "6g"},
         {"type": "i2s", "name": "random sessions with NaN", "spec": "Trace_Evaluator",
          "cmd": ["drive", "evaluator", "{seed}", q(tier, 300, 3000), "{trace}"]},
-        {"type": "i2s", "name": "evaluate_v with NaN items", "spec": "Trace_EvalV",
+        {"type": "i2s", "name": "evaluate_v with NaN items (panic-freedom only)", "spec": "Trace_EvalV", "cfg": "Trace_EvalV_panic",
          "cmd": ["drive", "evalv", "{seed}", q(tier, 300, 3000), "{trace}"]},
         {"type": "i2s", "name": "every public operation under catch_unwind", "spec": "Trace_Panic",
          "cmd": ["drive", "nopanic", "{seed}", q(tier, 150, 3000), "{trace}"], "min_tally": [3000, 300, 0, 0]},
-        {"type": "i2s", "name": "whole-API sessions", "spec": "Trace_Library",
-         "cmd": ["drive", "session", "{seed}", q(tier, 150, 1500), "{trace}"]},
-        {"type": "i2s", "name": "direct evaluation incl. NaN", "spec": "Trace_Select",
+        {"type": "i2s", "name": "direct evaluation incl. NaN (panic-freedom only)", "spec": "Trace_Select", "cfg": "Trace_Select_panic",
          "cmd": ["drive", "select", "{seed}", q(tier, 100, 1000), "{trace}"]},
     ]
 
@@ -134,7 +136,8 @@ def c08(tier, seed):
             {"type": "i2s", "name": "drive deriv", "spec": "Trace_Ops", "cmd": ["drive", "deriv", "{seed}", q(tier, 400, 6000), "{trace}"],
              "min_tally": [0, 1000, 0, 0]},
             {"type": "i2s", "name": "drive pwops (piecewise derivative)", "spec": "Trace_Ops", "cmd": ["drive", "pwops", "{seed}", q(tier, 60, 600), "{trace}", "deriv"],
-             "min_tally": [0, 0, 0, 500]}]
+             "min_tally": [0, 0, 0, 500]},
+            session_step(tier, "derive")]
 
 
 def c14(tier, seed):
@@ -146,8 +149,7 @@ def c14(tier, seed):
 def c15(tier, seed):
     return [dict(MC_ALG), CALIB,
             {"type": "mc", "module": "MC_Library", "constants": {"N": 2, "Depth": q(tier, 3, 5)}, "workers": q(tier, 6, 12), "heap": "12g", "timeout": 3400},
-            {"type": "i2s", "name": "drive session (whole-API sessions, state carried across calls)", "spec": "Trace_Library",
-             "cmd": ["drive", "session", "{seed}", q(tier, 300, 3000), "{trace}"], "min_tally": [500, 1000, 5, 10]},
+            session_step(tier, "scalar"),
             {"type": "i2s", "name": "drive pwops", "spec": "Trace_Ops", "cmd": ["drive", "pwops", "{seed}", q(tier, 60, 1000), "{trace}"],
              "min_tally": [0, 0, 0, 1000], "min_nontrivial": 19}]
 
@@ -178,6 +180,7 @@ def c11(tier, seed):
          "min_tally": [150, 60, 100, 0]},
         {"type": "i2s", "name": "drive pwint log", "spec": "Trace_PwInt", "cmd": ["drive", "pwint", "{seed}", q(tier, 6, 40), "{trace}", "log"],
          "min_tally": [40, 15, 25, 40]},
+        session_step(tier, "integrate"),
     ]
     if tier == "thorough":
         steps += [{"type": "i2s", "name": "drive pwint log shard %d" % k, "spec": "Trace_PwInt",
@@ -242,6 +245,14 @@ ARITH_ASSUME = [
     "inputs whose partial terms or powers of x leave [2^-1000, 2^1000] are out of scope and skipped (counted by the tallies)",
     "trace validation samples seeded random and engineered inputs; the exact-grid replay is exhaustive on its grid only",
 ]
+
+def session_step(tier, scope):
+    """Whole-API sessions (state carried across calls) validated against Library.tla, judging only the clauses
+    of one property (Trace_Library's Scope)."""
+    return {"type": "i2s", "name": "sessions, scope " + scope, "spec": "Trace_Library", "cfg": "Trace_Library_" + scope,
+            "cmd": ["drive", "session", "{seed}", q(tier, 300, 3000), "{trace}"],
+            "min_tally": {"scalar": [500, 0, 0, 0], "derive": [500, 0, 0, 0], "integrate": [500, 0, 5, 0], "combine": [500, 0, 0, 10]}.get(scope, [0, 60, 0, 0])}
+
 
 ORDER_ASSUME = [
     "exhaustive part bounded by the stated N (segments) and M (distinct breakpoint ranks); transferred to f64 by data-independence and checked under the embedding family",
